@@ -6,7 +6,7 @@ from . import gridgen
 
 def check():
     return solvercheck.run(
-        "C05", None,
+        "C05", "C05.v",
         [dict(profile=PROFILES["teval"], n_quick=300, n_thorough=5000),
          dict(builder=gridgen.teval_builder, n_quick=240, n_thorough=4000)],
         [oracles.oracle_C05, oracles.oracle_shapes], TB,
